@@ -14,8 +14,11 @@ from ..dfsutil import case_rng, write_file
 from ..execu import run, clean_failure_key
 from ..runner import run_check, CaseResult, Scratch
 
+import shutil
+
 PROP = 'C07'
 BIN = {}
+VALGRIND = shutil.which('valgrind')
 RSS_LIMIT_KB = 512 * 1024
 
 
@@ -117,6 +120,16 @@ def case(spec):
                     if after > RSS_LIMIT_KB and before <= RSS_LIMIT_KB and len(data) <= (4 << 20):
                         res.violation('memory:rel', 'peak RSS %d MiB for an input of %d bytes' % (after // 1024, len(data)),
                                       r2.brief(), files, r2.argv)
+                    if ok and VALGRIND and rng.random() < (0.012 if tier == "quick" else 0.03):
+                        # uninitialised reads are invisible to ASan: memcheck on the release build, sampled
+                        v_ = run([VALGRIND, '-q', '--error-exitcode=99', BIN['rel']['dfs']] + pre + fileopts + args,
+                                 cwd=tmp, timeout=180)
+                        res.execs += 1
+                        res.add('memcheck_runs', 1)
+                        if v_.rc == 99 or b'Invalid read' in v_.err or b'Invalid write' in v_.err or \
+                                b'uninitialised' in v_.err:
+                            res.violation('memcheck:%s' % what, 'valgrind memcheck reports an error on the release build',
+                                          v_.brief(), files, v_.argv)
                     if ok and r2.rc is not None and (r2.rc, r2.out) != (r_.rc, r_.out) and variant == 'san':
                         res.violation('rel-vs-san-differ', 'release and sanitizer builds of the same tree disagree',
                                       {'san': r_.brief(), 'rel': r2.brief()}, files, r2.argv)
